@@ -81,7 +81,9 @@ class Buffer(PartHandler):
 
     def _can_accept_part(self, part):
         part_count = Buffer._get_part_count(part)
-        if self.level() + part_count > self._capacity:
+        if self.level() + part_count > self._capacity or self.level() >= self._capacity:
+            # A full buffer has no space to offer (see notify_upstream_of_available_space),
+            # not even for an empty Batch.
             return False
         else:
             return super()._can_accept_part(part)
